@@ -187,12 +187,19 @@ JudgeEffect(ev, pre, post, i) ==
         same == Unchanged(pre, post)
     IN
     IF ~IsWrite(ev) THEN
-        (IF same THEN {} ELSE Viol("C01", [w |-> "state-changed-by", op |-> ev.op], i))
+        (IF same THEN {}
+         \* a restart after which members and kinds are as before but a property reads differently
+         ELSE IF ev.op = "Restart" /\ Proj(post).store = Proj(pre).store /\ KindsOK(pre, post)
+           THEN Viol("C15", [w |-> "property-changed-by-restart", op |-> ev.op], i)
+         ELSE Viol("C01", [w |-> "state-changed-by", op |-> ev.op], i))
     ELSE IF ev.lk /\ ev.resp.cls = "locked" THEN
         (IF same THEN {} ELSE Viol("C01", [w |-> "locked-but-changed", op |-> ev.op], i))
     ELSE IF o.must = "succeed" THEN
         IF Reported(ev) THEN
             (IF EffectMatches(ev, o, pre, post) THEN {}
+             ELSE IF ev.op = "Restart" /\ Proj(post).store = o.st.store /\ KindsOK(pre, post)
+                     /\ \A c \in Colls(post) \ Colls(pre) : post.colls[c].kind = DefaultKind(c)
+               THEN Viol("C15", [w |-> "property-changed-by-restart", op |-> ev.op], i)
              ELSE Viol(IF ev.op = "Proppatch" THEN "C15" ELSE "C01",
                        [w |-> "wrong-effect", op |-> ev.op], i))
         ELSE IF same THEN
